@@ -90,6 +90,56 @@ def rule_ignore_dominates_matlab(ctx, rep: Report, rid="X2"):
             f"{ci.mod.rel}:{gp.lineno}")
 
 
+def rule_every_class_iteration_filtered(ctx, rep: Report, rid="X2"):
+    ci, prog = mw(ctx)
+    n = 0
+    for c in prog.mro(ci):
+        for mname, fn in sorted(c.methods.items()):
+            for x in ast.walk(fn):
+                it = None
+                if isinstance(x, ast.For) and unparse(x.iter) == "self.classes":
+                    it = x
+                    tests = [t for st in x.body for t in _ignore_tests(st)]
+                    first_emit = next((st for st in x.body if isinstance(st, (ast.AugAssign,)) or ".append(" in unparse(st)), None)
+                    ok = bool(tests) and (first_emit is None or tests[0].lineno <= first_emit.lineno)
+                elif isinstance(x, ast.comprehension) and unparse(x.iter) == "self.classes":
+                    it = x
+                    ok = any(True for cond in x.ifs for _ in _ignore_tests(cond))
+                if it is None:
+                    continue
+                n += 1
+                rep.add(rid, f"{mname}:iteration over the registered classes applies the ignore list", ok,
+                        "text is produced for every registered class without consulting the ignore list: an artefact of an "
+                        "ignored class (e.g. its typedef) survives in the MEX source", f"{c.mod.rel}:{getattr(it, 'lineno', it.iter.lineno)}")
+    if n < 1:
+        raise AnalysisError(f"{rep.prop}/{rid}: no iteration over self.classes found")
+
+
+def rule_cross_class_state_keyed_by_class(ctx, rep: Report, rid="X4"):
+    """The only state shared between class blocks in the pybind generator is the docstring overload memory;
+    its key must contain the class exactly as the emitter spells it (the full C++ name), so that blocks of
+    different classes / instantiations never share a counter."""
+    prog = ctx.prog
+    ci = prog.cls("XMLDocParser")
+    ex = prog.method("XMLDocParser", "extract_docstring")
+    ps = func_params(ex)[1:]
+    rebound = sorted(p for p in ps if local_assignments(ex).get(p))
+    rep.add(rid, "extract_docstring:class / method / argument names are used as given (never normalised)", not rebound,
+            f"parameter(s) {rebound} are re-assigned inside extract_docstring: distinct classes (e.g. two instantiations of "
+            f"one template) can then map to the same overload-memory key, so wrapping or ignoring one changes the docstrings "
+            f"of the other", f"{ci.mod.rel}:{ex.lineno}")
+    call = next((c for c in walk_no_nested(ex) if isinstance(c, ast.Call) and unparse(c.func) == "self.determine_documenting_index"), None)
+    args = [unparse(a) for a in call.args] if call else []
+    rep.add(rid, "extract_docstring:the memory key receives the caller's class and method", args[:3] == ps[1:4], f"{args}",
+            f"{ci.mod.rel}:{ex.lineno}")
+    pwc = prog.cls("PybindWrapper")
+    wm = prog.method("PybindWrapper", "_wrap_method")
+    call = next((c for c in ast.walk(wm) if isinstance(c, ast.Call) and isinstance(c.func, ast.Attribute) and c.func.attr == "extract_docstring"), None)
+    rep.add(rid, "_wrap_method:passes the class's full C++ name to the docstring lookup",
+            call is not None and len(call.args) >= 2 and unparse(call.args[1]) == func_params(wm)[2], "", f"{pwc.mod.rel}:{wm.lineno}",
+            nontrivial=False)
+
+
 def rule_none_result_handled(ctx, rep: Report, rid="X3"):
     ci, prog = mw(ctx)
     n = 0
@@ -166,8 +216,9 @@ def rule_file_separator(ctx, rep: Report, rid="Y1"):
     detail = ""
     if accs:
         v = accs[0].value
-        consts = [c.value for c in ast.walk(v) if isinstance(c, ast.Constant) and isinstance(c.value, str)]
-        ok = any("\n" in c for c in consts)
+        # the separator is appended unconditionally:  <text> + "\n"  (or "\n" + <text>)
+        ok = isinstance(v, ast.BinOp) and isinstance(v.op, ast.Add) and any(
+            isinstance(x, ast.Constant) and isinstance(x.value, str) and "\n" in x.value for x in (v.left, v.right))
         detail = f"accumulated as `{unparse(accs[0])}`"
     elif joined:
         ok = "\n" in joined[0].func.value.value
@@ -1088,3 +1139,32 @@ def rule_marshalling_table(ctx, rep: Report, rid="M7"):
                 f"while the same signature as a method uses unwrap_enum / wrap_enum", f"{ci.mod.rel}:{c.lineno}")
     if n < 6:
         raise AnalysisError(f"{rep.prop}/{rid}: {n} unwrap/return call sites in generate_collector_function, 6 expected")
+
+
+
+def rule_group_by_name(ctx, rep: Report, rid="M5"):
+    """All overloads of one name end up in one group (one .m function, one chain of arity tests):
+    the group is looked up by name among *all* groups built so far, not only the previous one."""
+    ci, prog = mw(ctx)
+    fn = prog.method("MatlabWrapper", "_group_methods")
+    loop = next((l for l in fn.body if isinstance(l, ast.For)), None)
+    if loop is None:
+        raise AnalysisError("_group_methods: loop not found")
+    mv = loop.target.id
+    dicts = [st.targets[0].id for st in fn.body if isinstance(st, ast.Assign) and isinstance(st.value, ast.Dict) and not st.value.keys
+             and isinstance(st.targets[0], ast.Name)]
+    keyed = False
+    for d in dicts:
+        reads = [c for c in ast.walk(loop) if (isinstance(c, ast.Call) and unparse(c.func) in (f"{d}.get", f"{d}.setdefault") and c.args
+                                                and unparse(c.args[0]) == f"{mv}.name")
+                 or (isinstance(c, ast.Compare) and unparse(c.left) == f"{mv}.name" and unparse(c.comparators[0]) == d)
+                 or (isinstance(c, ast.Subscript) and unparse(c.value) == d and unparse(c.slice) == f"{mv}.name" and isinstance(c.ctx, ast.Load))]
+        writes = [c for c in ast.walk(loop) if isinstance(c, ast.Subscript) and unparse(c.value) == d and unparse(c.slice) == f"{mv}.name"
+                  and isinstance(c.ctx, ast.Store)] + [c for c in ast.walk(loop) if isinstance(c, ast.Call) and unparse(c.func) == f"{d}.setdefault"]
+        keyed = keyed or (bool(reads) and bool(writes))
+    last_only = any(isinstance(x, ast.Subscript) and isinstance(x.slice, ast.UnaryOp) and unparse(x.slice) == "-1" for t in
+                    [i.test for i in ast.walk(loop) if isinstance(i, ast.If)] for x in ast.walk(t))
+    rep.add(rid, "_group_methods:overloads are gathered by name across the whole list (name -> group table)", keyed and not last_only,
+            "the group of an overload is decided from the previous group only: overloads of one free function that are "
+            "separated by another declaration form two groups with the same name, the second <name>.m overwrites the "
+            "first, and the ids of the first group have no call site" if last_only or not keyed else "", f"{ci.mod.rel}:{fn.lineno}")
